@@ -1,5 +1,6 @@
 import Sqfs.Model.Obj
 import Sqfs.Model.C19Readers
+import Sqfs.Model.RbTree
 /-!
 Witnesses: the copy hooks of the pinned tree (`descCurrent`) violate C19.  Each statement is about the model
 of the *current* code, is decided by evaluation, and is replayed on the real code by `tools/checks/c19.py`
@@ -193,5 +194,26 @@ def twoBlocksDR : DR := ⟨4, [], some ([1, 2, 3, 4], 4), 0, 0, some ([7, 8, 0, 
 
 theorem twoBlocks_satisfies_invariant : cacheInv twoBlocksDR = true := by decide
 theorem short_copy_loses_data : decide (drCopyShort twoBlocksDR = twoBlocksDR) = false ∧ decide (drCopy twoBlocksDR = twoBlocksDR) = true := by decide
+
+/-! ### why `rbtree_copy_equiv` is about `key_size_padded`: a `copy_node` whose `memcpy` is sized by `key_size`
+
+The seeded change C19-b1 computes the node size as `sizeof(*n) + key_size + value_size`.  For every key size that is not
+a multiple of `sizeof(void *)` the copied node then lacks the last `key_size_padded - key_size` bytes of its **value**
+(they stay zero in the `calloc`ed node).  In the directory reader's cache (4 byte key, 8 byte value) that is the upper
+half of every cached inode reference. -/
+
+open Sqfs.Rb in
+/-- `data[]` of the fresh node when `memcpy` copies `sizeof(*n) + key_size + value_size` bytes -/
+def copyDataShort (c : Cfg) (d : List UInt8) : List UInt8 :=
+  (d.take (c.keySize + c.valueSize) ++ List.replicate (c.keyPad + c.valueSize) 0).take (c.keyPad + c.valueSize)
+
+open Sqfs.Rb in
+/-- the node that caches "inode 7 lives at reference 0x123456789abc": its copy holds reference 0x56789abc -/
+theorem short_node_copy_loses_value_tail :
+    let c : Cfg := ⟨4, 8, 8⟩
+    let d := dataOf (mknode c (leBytes 4 7) (leBytes 8 0x123456789abc))
+    d.length = c.keyPad + c.valueSize ∧ leVal (valueOf c (c.keyPad, d)) = 0x123456789abc ∧
+    leVal (valueOf c (c.keyPad, copyDataShort c d)) = 0x56789abc ∧ copyData c d = d := by decide
+
 
 end Sqfs.Witness.C19
